@@ -256,6 +256,17 @@ def gen_plan(rng, family):
         if rng.random() < 0.3:
             main.insert(rng.randint(1, len(main)), ["cancel", rng.randrange(n)])
         plan["final"] = "await+submit+shutdown"
+    elif family == "cbreuse":                   # C01 C10: done-callbacks submitting to the REUSABLE executor while another thread resizes / replaces it (H15)
+        plan["reusable"] = True
+        plan["timeout"] = 10
+        plan["workers"] = rng.choice([2, 3])
+        for _ in range(rng.randint(1, 3)):
+            main.append([rng.choice(["submit_cb", "submit_cb", "submit"]), rng.choice(["value", "long"])])
+        other = []
+        for _ in range(rng.randint(1, 2)):
+            other.append(rng.choice([["resize", 1], ["resize", rng.choice([1, 2, 3, 4])], ["get", plan["workers"], 20, "auto", False]]))
+        plan["threads"].append(other)
+        plan["final"] = "await"
     elif family == "saturate":                  # C08 delivered
         plan["workers"] = rng.choice([1, 2, 3])
         plan["timeout"] = rng.choice([None, 0.05, 0.05])
@@ -519,6 +530,7 @@ def object_roles(env):
                 roles[n] = role
         if ex.get("shutdown_lock") is not None:
             roles[ex["shutdown_lock"]._s.name] = "shutdown_lock"
+    roles["/factory-lock"] = "factory"
     return roles
 
 
@@ -528,6 +540,65 @@ def norm_op(op, roles):
         return f"{m.group(1)}:{roles.get(m.group(2), 'other')}"
     return op.split(" ")[0]
 
+
+
+# ---------------------------------------------------------------------- the lock order observed vs the one read off the source
+_LOCKS = {}
+
+
+def generated_lock_order():
+    """edges (transitively closed) and excluded edges of tr/units_locks.py: gen_locks on the tree under test"""
+    if not _LOCKS:
+        try:
+            sys.path.insert(0, os.path.join(os.path.dirname(os.path.dirname(HERE)), "tr"))
+            import units
+            import units_locks
+            man = units.gen_locks(os.environ.get("VERIF_REPO", "/repo"))[1]
+            es = {tuple(k.split("->")) for k in man["edges"]}
+            closure = set(es)
+            grew = True
+            while grew:
+                grew = False
+                for a, b in list(closure):
+                    for c, d in es:
+                        if b == c and (a, d) not in closure:
+                            closure.add((a, d))
+                            grew = True
+            _LOCKS.update(ok=True, closure=closure, excluded=set(units_locks.EXCLUDED))
+        except BaseException as e:  # noqa  (translator refused: nothing to compare with)
+            _LOCKS.update(ok=False, error=repr(e)[:200])
+    return _LOCKS
+
+
+def lock_order_anomalies(r, env):
+    """every (lock held -> untimed wait entered) pair of this run must be a path of the generated relation"""
+    gen = generated_lock_order()
+    if not gen.get("ok"):
+        return []
+    names = {"/factory-lock": "LFactory", "TMgr": "TMgr", "PWorker": "PWorker"}
+    for ex in env.all_executors:
+        def sl(x):
+            return getattr(getattr(x, "_semlock", None), "name", None)
+        if sl(ex.get("mgmt")):
+            names[sl(ex["mgmt"])] = "LMgmt"
+        cq = ex.get("cq")
+        if cq is not None and sl(cq._sem):
+            names[sl(cq._sem)] = "LSlot"
+        if ex.get("shutdown_lock") is not None:
+            names[ex["shutdown_lock"]._s.name] = "LShutdown"
+        if ex.get("submit_resize") is not None and ex["submit_resize"]._s.name not in names:
+            names[ex["submit_resize"]._s.name] = "LSubmitResize"
+    out = []
+    for held, target, role in sorted(getattr(r.kern, "lock_pairs", ())):
+        a = "LGlobal" if held.startswith("/global-shutdown-") else names.get(held)
+        b = "LGlobal" if target.startswith("/global-shutdown-") else names.get(target)
+        if a is None or b is None or a == b or a == "LSlot":
+            continue            # a queue slot is a token, not a lock its taker holds; queue internals (CPython's), exit locks, condition variables: not part of the relation
+        if a == "PWorker" and b in ("LFactory", "LGlobal", "LShutdown", "LSubmitResize", "TMgr"):
+            continue            # per-process objects: the worker's own copies
+        if (a, b) not in gen["closure"]:
+            out.append((a, b, role))
+    return out
 
 # ---------------------------------------------------------------------- what the translator says the manager does
 _EXPECT = {}
@@ -649,7 +720,7 @@ def analyze(plan, r):
         hang_props.append("C05")
     if fam in ("timeout",) or (plan["timeout"] and not kills):
         hang_props.append("C07")
-    if fam in ("resize", "idleshrink"):
+    if fam in ("resize", "idleshrink", "cbreuse"):
         hang_props += ["C10", "C09"]
     if fam == "reuse":
         hang_props += ["C09"]
@@ -853,6 +924,9 @@ def analyze(plan, r):
     if not crashes:
         for fn, got, want in manager_op_anomalies(r, env):
             add(["C20", "C01", "C02", "C05", "C06"], "manager-ops-differ", f"manager-ops-differ[{fn}] ctx[{ctx}]", f"executed {got}, generated list says {want}")
+    # 9e. the order in which locks are really entered vs the relation generated from the source (ties tr/units_locks.py to the runtime)
+    for a, b, role in lock_order_anomalies(r, env):
+        add(["C01"], "lock-order-differs", f"lock-order-edge-not-generated[{a}->{b}] by[{role}]", "entered while held, but not a path of Gen/LockOrder.v")
     # 9c. statements proved on the control model (coq/Model/Pool.v), watched on the real objects after every step
     for name, where in getattr(r, "inv_violations", {}).items():
         if name == "manager-gone-with-pending" and (crashes or r.status != "quiescent"):
